@@ -823,6 +823,53 @@ def judge_unpack(fi: FunctionInfo, at: ast.stmt, target: ast.expr, rhs: ast.expr
     return ("ok", f"the length is {want} for every admissible split length (maxsplit / separator test / len() guard / slice+padding)")
 
 
+def _after_successful_relfn2path(call: ast.Call, arg: ast.expr, fi: FunctionInfo) -> bool:
+    """The construct runs only when a local is truthy that is bound (apart from None) solely where
+    ``relfn2path(<same text>)`` has completed normally: in the ``else`` of the try around it, or after it in the try body."""
+    if fi.is_lambda:
+        return False
+    try:
+        from .flow import get_cfg
+
+        cfg = get_cfg(fi)
+        facts = cfg.guards(cfg.stmt_of(call))
+    except Exception:
+        return False
+    atext = unparse(arg)
+    for t, pol in facts:
+        if not (isinstance(t, ast.Name) and pol):
+            continue
+        defs = []
+        for n in fi.local_nodes():
+            if isinstance(n, ast.Assign) and len(n.targets) == 1 and isinstance(n.targets[0], ast.Name) and n.targets[0].id == t.id:
+                defs.append((n, n.value))
+            elif isinstance(n, ast.AnnAssign) and isinstance(n.target, ast.Name) and n.target.id == t.id and n.value is not None:
+                defs.append((n, n.value))
+            elif isinstance(n, ast.Name) and n.id == t.id and isinstance(n.ctx, ast.Store) and not isinstance(parent(n), (ast.Assign, ast.AnnAssign)):
+                defs.append((n, None))
+        real = [(n, v) for n, v in defs if not (isinstance(v, ast.Constant) and v.value is None)]
+        if not real or any(v is None for _, v in real):
+            continue
+
+        def after_success(st: ast.AST) -> bool:
+            for a in ancestors(st):
+                if isinstance(a, (ast.FunctionDef, ast.Lambda)):
+                    break
+                if isinstance(a, ast.Try):
+                    rcalls = [c for b in a.body for c in ast.walk(b) if isinstance(c, ast.Call) and isinstance(c.func, ast.Attribute) and c.func.attr == "relfn2path" and c.args and unparse(c.args[0]) == atext]
+                    if not rcalls:
+                        continue
+                    if any(st is x or st in ast.walk(x) for x in a.orelse):
+                        return True
+                    if any(st is x or st in ast.walk(x) for x in a.body) and all(c.lineno < st.lineno for c in rcalls):
+                        return True
+            return False
+
+        if all(after_success(n) for n, _ in real):
+            return True
+    return False
+
+
 _FIELD_ENUMS = ("get_fields", "as_triple", "fields", "asdict")
 
 
@@ -1092,6 +1139,26 @@ class EscapeAnalysis:
                     add([B + "StopIteration"], "next() without default")
             elif n == "jinja2.Environment" :
                 pass
+        # Sphinx's env.relfn2path() ends in Path.resolve(): ValueError('embedded null byte') for a file name with NUL
+        if attr == "relfn2path" and call.args and self.relfn2path_resolves():
+            how = self._nul_status(call.args[0], call, fi)
+            if how == "tainted":
+                add([B + "ValueError"], "env.relfn2path() -> Path.resolve() of text that went through percent-decoding (%00 -> NUL: 'embedded null byte')")
+            elif how == "tested":
+                self._discharge(fi, call, "relfn2path(): the argument is dominated by a test that it contains no NUL")
+            else:
+                self._assume(fi, call, "relfn2path(): the argument does not derive from percent-decoded text; markdown-it's normalize rule replaces every NUL of the source by U+FFFD" + ("" if self.mdit_replaces_nul() else " (NOT confirmed in markdown_it/rules_core/normalize.py)"))
+        for n in names:
+            if n.endswith("addnodes.download_reference") and self.relfn2path_resolves():
+                rt = next((k.value for k in call.keywords if k.arg == "reftarget"), None)
+                if rt is not None:
+                    how = self._nul_status(rt, call, fi)
+                    if how == "tainted" and not _after_successful_relfn2path(call, rt, fi):
+                        add([B + "ValueError"], "download_reference(reftarget=<percent-decoded text>): Sphinx's DownloadFileCollector passes it to env.relfn2path() -> 'embedded null byte' aborts the build")
+                    elif how == "tainted":
+                        self._discharge(fi, call, "download_reference(reftarget=..): only built when env.relfn2path() of the same text succeeded")
+                    elif how == "tested":
+                        self._discharge(fi, call, "download_reference(reftarget=..): dominated by a test that the target contains no NUL")
         if attr in ("read_text", "read_bytes"):
             add([B + "OSError", B + "ValueError", B + "LookupError"], "reading a file")
         elif attr in ("is_file", "is_dir", "exists") and not call.args:
@@ -1118,6 +1185,95 @@ class EscapeAnalysis:
                     # docutils option converters raise ValueError for a bad *string* (TypeError only for None)
                     add([B + "ValueError"], "docutils option converter applied to str(value)")
         return out
+
+    def relfn2path_resolves(self) -> bool:
+        """Sphinx's BuildEnvironment.relfn2path calls ``.resolve()`` outside any try (read from the sibling source)."""
+
+        def compute():
+            m = self.c.sibling_module("sphinx.environment")
+            f = m.functions.get("BuildEnvironment.relfn2path") if m is not None else None
+            if f is None:
+                return True  # not readable: assume the behaviour of the pinned Sphinx
+            for c in f.local_nodes():
+                if isinstance(c, ast.Call) and isinstance(c.func, ast.Attribute) and c.func.attr in ("resolve", "realpath", "abspath"):
+                    if not any(isinstance(a, ast.Try) and any(c in ast.walk(b) for b in a.body) for a in ancestors(c)):
+                        return True
+            return False
+
+        return self.c.cache("sphinx-relfn2path-resolves", compute)
+
+    def mdit_replaces_nul(self) -> bool:
+        def compute():
+            try:
+                m = self.c.sibling("markdown_it/rules_core/normalize.py")
+            except Exception:
+                return False
+            pat = m.const_nodes.get("NULL_RE")
+            ok_pat = pat is not None and any(isinstance(x, ast.Constant) and x.value in ("\\0", "\0", "\x00") for x in ast.walk(pat))
+            subs = any(isinstance(c, ast.Call) and unparse(c.func) == "NULL_RE.sub" for f in m.functions.values() for c in f.local_nodes())
+            return ok_pat and subs
+
+        return self.c.cache("mdit-replaces-nul", compute)
+
+    _DECODERS = ("normalizeLinkText", "unquote", "unquote_plus", "unquote_to_bytes")
+
+    def _nul_tainted(self, e: ast.AST, fi: FunctionInfo, seen: set, depth: int = 0) -> bool:
+        """The text may contain a NUL: it derives from a percent-decoding call or from a parameter of unknown origin."""
+        if depth > 8:
+            return True
+        for x in ast.walk(e):
+            if isinstance(x, ast.Call):
+                nm = x.func.attr if isinstance(x.func, ast.Attribute) else (x.func.id if isinstance(x.func, ast.Name) else "")
+                if nm in self._DECODERS or fi.module.resolve(dotted(x.func) or "") in ("mdurl.decode", "mdurl._decode.decode"):
+                    return True
+            if isinstance(x, ast.Name) and isinstance(x.ctx, ast.Load) and x.id not in seen and x.id not in ("self", "cls"):
+                if isinstance(parent(x), ast.Call) and parent(x).func is x:
+                    continue
+                seen.add(x.id)
+                if not fi.is_lambda and x.id in fi.params:
+                    return True
+                if fi.is_lambda:
+                    continue
+                for n in fi.local_nodes():
+                    val = None
+                    if isinstance(n, ast.Assign) and any(isinstance(t, ast.Name) and t.id == x.id and isinstance(t.ctx, ast.Store) for tg in n.targets for t in ast.walk(tg)):
+                        val = n.value
+                    elif isinstance(n, (ast.AnnAssign, ast.AugAssign, ast.NamedExpr)) and isinstance(n.target, ast.Name) and n.target.id == x.id:
+                        val = n.value
+                    elif isinstance(n, (ast.For, ast.comprehension)) and any(isinstance(t, ast.Name) and t.id == x.id for t in ast.walk(n.target)):
+                        val = n.iter
+                    if val is not None and self._nul_tainted(val, fi, seen, depth + 1):
+                        return True
+        return False
+
+    def _nul_status(self, arg: ast.expr, call: ast.Call, fi: FunctionInfo) -> str:
+        """'tainted' | 'tested' | 'clean'"""
+        if not self._nul_tainted(arg, fi, set()):
+            return "clean"
+        if fi.is_lambda:
+            return "tainted"
+        try:
+            from .flow import get_cfg
+
+            cfg = get_cfg(fi)
+            facts = cfg.guards(cfg.stmt_of(call))
+        except Exception:
+            return "tainted"
+        names = {x.id for x in ast.walk(arg) if isinstance(x, ast.Name)}
+        for t, pol in facts:
+            if not (isinstance(t, ast.Compare) and len(t.ops) == 1 and isinstance(t.left, ast.Constant) and t.left.value in ("\x00", "\0")):
+                continue
+            if not ((isinstance(t.ops[0], ast.In) and not pol) or (isinstance(t.ops[0], ast.NotIn) and pol)):
+                continue
+            tested = t.comparators[0]
+            if unparse(tested) == unparse(arg):
+                return "tested"
+            # the argument is a part (split / slice) of the tested text, bound after the test or before it from the same text
+            if isinstance(tested, ast.Name) and isinstance(arg, ast.Name) and not fi.is_lambda:
+                defs = [n.value for n in fi.local_nodes() if isinstance(n, ast.Assign) and any(isinstance(x, ast.Name) and x.id == arg.id and isinstance(x.ctx, ast.Store) for tg in n.targets for x in ast.walk(tg))]
+                if defs and all({x.id for x in ast.walk(d) if isinstance(x, ast.Name) and isinstance(x.ctx, ast.Load) and not (isinstance(parent(x), ast.Call) and parent(x).func is x)} <= {tested.id} for d in defs):
+                    return "tested"
+        return "tainted"
 
     def yaml_scalar_constructor_errors(self) -> list[str]:
         """What the scalar constructors of PyYAML's SafeConstructor raise besides YAMLError, read from the sibling
